@@ -1866,6 +1866,15 @@ UNITS['SrcSweep'] = sweep_unit
 UNITS['SrcWkt'] = wkt_unit
 
 
+def geojson_unit():
+    # geostructures GeoJSON exporters, ring orientation, time fields (C14): declared in srcunits_geojson.py
+    import srcunits_geojson
+    return srcunits_geojson.unit()
+
+
+UNITS['SrcGeoJson'] = geojson_unit
+
+
 def render(name):
     """(lean text, None) or (stub text, reason) when the current source is outside the translated subset"""
     try:
